@@ -1462,3 +1462,4 @@ def _accessor(self):
 
 FrameVal.pandera = property(_accessor)
 SeriesVal.pandera = property(_accessor)
+FrameVal.pyvc_not_callable = SeriesVal.pyvc_not_callable = True  # (pandas objects define no __call__)
